@@ -69,6 +69,33 @@ CLAIMED = {
             'values of a loop nest and are NOT decided.',
             'Trusted: CPython ast, layout docstring, C01, naming scheme.',
             'DESIGN.md 3 (R9, R7, R11, R15, R3, R5), 4 (C06)'),
+    'C07': ('isinstance-chain shadowing, row-class guards + sign-decode truth tables of the expectation kernels, '
+            'replacement-block model of the projection-trace kernel, branch-specific dataflow (phase kinds, parallel '
+            'slices, result formula), effect summaries for purity',
+            'Decides the structure Tr(rho P) depends on: dispatch reaches the right branch for every operand class; the list '
+            'kernel zeroes on {SS,AS,SD} rows, accumulates on {AD} from row j-N and decodes the sign correctly; the polynomial '
+            'branch carries i^ps and cs; the overlap uses fresh copies, rows [r:N] of both arrays and divides by 2^r; the trace '
+            'kernel halves / zeroes with layout-true guards; get_prob writes 2*readout. Numerical equality with the trace '
+            'formulas and normalisation of probabilities are NOT decided.',
+            'Trusted: CPython ast, layout docstring, C01, naming scheme, effects.py.',
+            'DESIGN.md 3 (R14, R9, R3, R13, R6, R4), 4 (C07)'),
+    'C09': ('order signatures of generators / loops / folds, propositional entailment of take-guards over path conditions, '
+            'path enumeration of gate dispatch and placement, linked-list pairing, embed/mask wiring',
+            'Decides, for every program and every path, the ordering and locality structure: generators walk the right links, '
+            'forward is ascending, take() slides a gate only across independent, non-measurement layers and places it exactly '
+            'once, new layers are linked both ways, each gate applies its generator / forward map / inverted backward map / '
+            'fresh random map through mask(qubits, N), layer compile embeds compiled gate maps at the gate mask, the forward '
+            'fold is ascending, compose/copy preserve order. Equality of the compiled map with the sequential action is NOT '
+            'decided (needs C03/C04 semantics).',
+            'Trusted: CPython ast, C02-C04, the entailment helper (finite truth tables over path-condition atoms).',
+            'DESIGN.md 3 (R10, R11, R13), 4 (C09)'),
+    'C10': ('mirror queries over gate / layer / circuit backward paths, descending-order and descending-fold signatures',
+            'Decides that backward mirrors forward at every level on every path: rotate by the negated generator, apply the '
+            'backward map or the lazily inverted forward map, visit layers in descending order, fold the compiled backward map '
+            'as the descending product (or forward_map.inverse()), compile generator gates with +-generator and map gates as '
+            'mutual inverses. Correctness of inverse()/rotation themselves is C04/C02.',
+            'Trusted: CPython ast, C02, C04, entailment helper.',
+            'DESIGN.md 3 (R10, R11), 4 (C10)'),
     'C11': ('constant-table extraction by guard evaluation + literal folding, checked against first-principles '
             'Pauli algebra (symplectic validity, textbook action, distinctness, group closure)',
             'Complete static decision of the finite gate tables: all 31 literal tables (5 named, 24 indexed, 2 CNOT '
